@@ -505,9 +505,12 @@ C09_EveryTableStateReachable == \A f \in Stateful : TableStates(f) \subseteq Rea
 C09_LabelsUnique == Cardinality(Labels) = Cardinality(Alphabet)
 AppNames == {"app:hist_fetch", "app:rcpt_send", "app:rcpt_elem", "app:muc_join", "app:muc_leave", "app:ibb_write",
              "app:ibb_lclose", "app:ibb_open"}
+MaxItems == 7      \* the longest scenario (thorough tier: setup of 4 steps, a probe twice, a helper call)
+UsedItems == UNION {{sc.items[i] : i \in 1..Len(sc.items)} : sc \in SeqScenarios}
 C09_ItemsKnown ==
-  LET L == Labels \cup AppNames
-  IN \A sc \in SeqScenarios : sc.cfg \in Cfgs /\ \A i \in 1..Len(sc.items) : sc.items[i] \in L
+  /\ UsedItems \subseteq (Labels \cup AppNames)
+  /\ {sc.cfg : sc \in SeqScenarios} \subseteq Cfgs
+  /\ \A sc \in SeqScenarios : Len(sc.items) <= MaxItems
 (* every (registered target, shape) pair occurs in a sequence, in every table state of its    *)
 (* handler and in every configuration: the stateful part has exactly one scenario per         *)
 (* (configuration, non-empty setup, probe) triple                                             *)
@@ -556,7 +559,6 @@ VARIABLES n,          \* number of items of the scenario
           cancelled   \* the application cancelled the contexts of its pending calls
 vars == <<n, cfg, pos, eof, served, ncalls, nret, loc, cancelled>>
 
-MaxItems == 7
 Acts == AppNames \cup {"helper"}
 Init == /\ n \in 0..MaxItems /\ cfg \in Cfgs /\ pos = 0 /\ eof = FALSE /\ served = "running"
         /\ ncalls = 0 /\ nret = 0 /\ loc = "clean" /\ cancelled = FALSE
